@@ -125,7 +125,7 @@ def run(rep, tier, seed):
 def check(rep, H, g, off):
     fam = C.family(g)
     writes = [w for w in WRITES if not (w == "normalize" and fam in ("Rn", "Bundle"))]
-    scns = ["read_group", "read_tangent", "copies", "write_setRandom", "write_tangent", "write_tangent_zero"] + ["write_" + w for w in writes]
+    scns = ["read_group", "read_tangent", "copies", "view_sees_writes", "write_setRandom", "write_tangent", "write_tangent_zero"] + ["write_" + w for w in writes]
     avail = set(__import__("engine.build", fromlist=["x"]).list_scenarios(H.bins[g]))
     scns = [s for s in scns if s in avail]
     H.prefetch(g, scns)
@@ -170,6 +170,20 @@ def check(rep, H, g, off):
                 nm = "%s/every_viewed_cell_written" % L
                 rep.ok(nm, "FRAME", "dag") if written else rep.fail(nm, "FRAME", "dag", {"path": path.key}, {"failing_input_reproduced": False})
             no_guard_dependence(rep, L, path)
+    for path in H.paths(g, "view_sees_writes"):
+        if path.thrown:
+            continue
+        L = "C10/%s/off%d/view_sees_writes[%s]" % (g, off, path.script)
+        for k in ("const_view_data_is_buffer", "mutable_view_data_is_buffer", "const_tangent_view_data_is_buffer"):
+            nm = "%s/%s" % (L, k)
+            if path.ints.get(k) == 1:
+                rep.ok(nm, "FRAME", "trace")
+            else:
+                rep.fail(nm, "FRAME", "trace", {"note": "the view does not alias the user buffer (it holds a private copy)"},
+                         {"failing_input_reproduced": True, "input": "construct the view, compare view.coeffs().data() with the buffer pointer"})
+        same(rep, L, path, "const_view_after_write", "expected", "const_view_sees_a_later_write")
+        same(rep, L, path, "inverse_through_const_view", "inverse_expected", "operation_through_const_view_uses_current_buffer")
+        same(rep, L, path, "const_tangent_view_after_write", "t_expected", "const_tangent_view_sees_a_later_write")
     for path in H.paths(g, "copies"):
         if path.thrown:
             continue
